@@ -4,7 +4,8 @@ LEVEL = 'other'
 EXPLANATION = ("Deductive: DefaultResolver.get_arguments_to_test returns the longest prefix of plain (non-empty, non-option, non '--') tokens and leaves the iterator just behind it (loop invariant; 13 of 14 obligations discharged, one quantified sequence fact is undecided by z3/cvc5 and covered by the bounded tier).  Bounded: generated command trees x command lines compared with an independent walk / default-rule spec, alias and option-tail invariance.")
 LEVEL_NOTE = ('assumes: CommandCollection lookups and the default rule are bounded only; Seq(String) quantified invariants are at the limit of the solvers')
 from . import resolver_contracts as rc
-TARGETS = [rc.GAT]
+from . import C05_contracts as c5
+TARGETS = [rc.GAT, c5.M_CC + ":CommandConfig.default", c5.M_CC + ":CommandConfig.anonymous"]
 LEMMAS = []
 try:
     from .C03_bounded import bounded, BOUNDED_RULE  # noqa: F401
